@@ -11,15 +11,40 @@ Lemma nth_map_seq {B : Type} (f : nat -> B) (n i : nat) (dB : B) : (i < n)%nat -
 Proof. intros H. rewrite (nth_map_lt f (seq 0 n) i 0%nat dB) by (rewrite seq_length; exact H). rewrite seq_nth by exact H. reflexivity. Qed.
 
 (* ---------------- the diagonal loading ---------------- *)
-Lemma load_value : Gen_load_default = / 67108864.
-Proof. unfold Gen_load_default. replace (/ 4503599627370496) with ((/ 67108864) * (/ 67108864)) by (field; lra).
+Lemma sqrt_eps_value : Gen_sqrt_eps = / 67108864.
+Proof. unfold Gen_sqrt_eps. replace (/ 4503599627370496) with ((/ 67108864) * (/ 67108864)) by (field; lra).
   apply sqrt_square. lra. Qed.
-Lemma load_diagonal_entry cov i j : (i < length cov)%nat -> (j < length cov)%nat ->
-  entry (Gen_load_diagonal cov) i j = entry cov i j + (if Nat.eqb i j then / 67108864 else 0).
-Proof. intros Hi Hj. unfold Gen_load_diagonal, add_diag. rewrite load_value. unfold entry at 1.
+Lemma fold_rmax_ge l x : In x l -> x <= fold_right Rmax 0 l.
+Proof. induction l as [|a l IH]; intros H; [destruct H|]. cbn. destruct H as [H|H].
+  - subst. apply Rmax_l.
+  - eapply Rle_trans; [apply IH; exact H|apply Rmax_r]. Qed.
+Lemma fold_rmax_nonneg l : 0 <= fold_right Rmax 0 l.
+Proof. induction l as [|a l IH]; cbn; [lra|]. eapply Rle_trans; [exact IH|apply Rmax_r]. Qed.
+Lemma fold_rmax_attained l : fold_right Rmax 0 l = 0 \/ In (fold_right Rmax 0 l) l.
+Proof. induction l as [|a l IH]; cbn; [left; reflexivity|].
+  destruct (Rle_dec a (fold_right Rmax 0 l)) as [r|r].
+  - rewrite (Rmax_right _ _ r). destruct IH as [IH|IH]; [left; exact IH|right; right; exact IH].
+  - rewrite Rmax_left by lra. right. left. reflexivity. Qed.
+Lemma maxabs_nonneg M : 0 <= maxabs M.
+Proof. apply fold_rmax_nonneg. Qed.
+Lemma maxabs_ge M i j : (i < length M)%nat -> (j < length (nth i M []))%nat -> Rabs (entry M i j) <= maxabs M.
+Proof. intros Hi Hj. unfold maxabs. apply fold_rmax_ge. apply in_map. apply in_concat. exists (nth i M []).
+  split; [apply nth_In; exact Hi|unfold entry; apply nth_In; exact Hj]. Qed.
+(* the maximum is 0 (empty or zero matrix) or the absolute value of some entry *)
+Lemma maxabs_attained M : maxabs M = 0 \/ exists x, In x (concat M) /\ maxabs M = Rabs x.
+Proof. unfold maxabs. destruct (fold_rmax_attained (map Rabs (concat M))) as [H|H]; [left; exact H|right].
+  apply in_map_iff in H. destruct H as [x [Hx Hin]]. exists x. split; [exact Hin|symmetry; exact Hx]. Qed.
+Lemma load_diagonal_entry scale cov i j : (i < length cov)%nat -> (j < length cov)%nat ->
+  entry (Gen_load_diagonal scale cov) i j = entry cov i j + (if Nat.eqb i j then / 67108864 * scale else 0).
+Proof. intros Hi Hj. unfold Gen_load_diagonal, add_diag, Gen_load. rewrite sqrt_eps_value. unfold entry at 1.
   rewrite (nth_map_seq _ (length cov) i []) by exact Hi. rewrite (nth_map_seq _ (length cov) j 0) by exact Hj. reflexivity. Qed.
-Lemma load_diagonal_shape cov : length (Gen_load_diagonal cov) = length cov
-  /\ forall i, (i < length cov)%nat -> length (nth i (Gen_load_diagonal cov) []) = length cov.
+(* cov = scale * G entrywise (G = B B'): the matrix handed to the sampler is scale * (G + 2^-26 I) *)
+Lemma load_diagonal_scaled scale (G : nat -> nat -> R) cov i j : (i < length cov)%nat -> (j < length cov)%nat ->
+  entry cov i j = scale * G i j ->
+  entry (Gen_load_diagonal scale cov) i j = scale * (G i j + (if Nat.eqb i j then / 67108864 else 0)).
+Proof. intros Hi Hj Hc. rewrite (load_diagonal_entry scale cov i j Hi Hj), Hc. destruct (Nat.eqb i j); ring. Qed.
+Lemma load_diagonal_shape scale cov : length (Gen_load_diagonal scale cov) = length cov
+  /\ forall i, (i < length cov)%nat -> length (nth i (Gen_load_diagonal scale cov) []) = length cov.
 Proof. unfold Gen_load_diagonal, add_diag. split.
   - rewrite map_length, seq_length. reflexivity.
   - intros i Hi. rewrite (nth_map_seq _ (length cov) i []) by exact Hi. rewrite map_length, seq_length. reflexivity. Qed.
@@ -40,10 +65,10 @@ Proof. intros H. destruct n as [|n]; [lia|]. unfold first_seen. cbn. rewrite fir
 Lemma one_bootstrap_iterations : Gen_bootstrap_iterations 1 = 0%nat.
 Proof. reflexivity. Qed.
 
-Lemma mvn_args_one coef cov choice n_draws :
+Lemma mvn_args_one scale coef cov choice n_draws :
   (1 <= n_draws)%nat -> length choice = n_draws -> Forall (fun b => (b < 1)%nat) choice ->
-  Gen_simulate_calls (fst (Gen_bootstrap_lists coef cov [])) (snd (Gen_bootstrap_lists coef cov [])) choice
-  = [mk_mvn_call coef (Gen_load_diagonal cov) n_draws (seq 0 n_draws)].
+  Gen_simulate_calls (fst (Gen_bootstrap_lists scale coef cov [])) (snd (Gen_bootstrap_lists scale coef cov [])) choice
+  = [mk_mvn_call coef (Gen_load_diagonal scale cov) n_draws (seq 0 n_draws)].
 Proof. intros Hn Hl Hc. rewrite (choice_zero choice Hc), Hl. unfold Gen_simulate_calls.
   rewrite first_seen_repeat by exact Hn. cbn [map]. rewrite positions_repeat. unfold Gen_mvn_call, Gen_bootstrap_lists.
   cbn [fst snd map app nth]. rewrite seq_length. reflexivity. Qed.
@@ -93,29 +118,30 @@ Proof. unfold Gen_coef_draws, assemble. rewrite map_length, seq_length. reflexiv
 Lemma quantity_allowed_iff q : existsb (String.eqb q) ["coef"%string; "mu"%string; "y"%string] = true
   <-> (q = "coef"%string \/ q = "mu"%string \/ q = "y"%string).
 Proof. cbn. rewrite !orb_true_iff, !String.eqb_eq. intuition discriminate. Qed.
-Lemma checks_value : Gen_sample_checks = [CkQuantity ["coef"%string; "mu"%string; "y"%string]; CkFitted; CkLt "n_bootstraps"%string 1%Z; CkLt "n_draws"%string 1%Z].
+Lemma checks_value : Gen_sample_checks
+  = [CkQuantity ["coef"%string; "mu"%string; "y"%string]; CkFitted; CkLt "n_bootstraps"%string 1%Z; CkLt "n_draws"%string 1%Z]
+    ++ (if Gen_sample_validates_data then [CkData] else []).
 Proof. reflexivity. Qed.
-Lemma rejects_iff q fitted nd nb :
+(* proved for either form of the generated check list (with or without the data-validation block) *)
+Lemma rejects_iff q fitted valid nd nb :
   let ok := (q = "coef"%string \/ q = "mu"%string \/ q = "y"%string) in
-  (run_checks Gen_sample_checks q fitted nd nb = SValueError <-> (~ ok \/ (fitted = true /\ ((nb < 1)%Z \/ (nd < 1)%Z)))) /\
-  (run_checks Gen_sample_checks q fitted nd nb = SAttributeError <-> (ok /\ fitted = false)) /\
-  (run_checks Gen_sample_checks q fitted nd nb = SRun <-> (ok /\ fitted = true /\ (1 <= nb)%Z /\ (1 <= nd)%Z)).
-Proof. intros ok. rewrite checks_value. unfold run_checks, check_fails. cbn [String.eqb Ascii.eqb Bool.eqb].
+  let bad_data := (Gen_sample_validates_data = true /\ valid = false) in
+  (run_checks Gen_sample_checks q fitted valid nd nb = SValueError <-> (~ ok \/ (fitted = true /\ ((nb < 1)%Z \/ (nd < 1)%Z \/ bad_data)))) /\
+  (run_checks Gen_sample_checks q fitted valid nd nb = SAttributeError <-> (ok /\ fitted = false)) /\
+  (run_checks Gen_sample_checks q fitted valid nd nb = SRun <-> (ok /\ fitted = true /\ (1 <= nb)%Z /\ (1 <= nd)%Z /\ ~ bad_data)).
+Proof. intros ok bad_data. unfold bad_data. rewrite checks_value. generalize Gen_sample_validates_data. intros v.
+  unfold run_checks, check_fails. cbn [app String.eqb Ascii.eqb Bool.eqb].
   pose proof (quantity_allowed_iff q) as HQ. fold ok in HQ.
   destruct (existsb (String.eqb q) ["coef"%string; "mu"%string; "y"%string]).
   - assert (Hok : ok) by (apply HQ; reflexivity).
     destruct fitted.
     + destruct (Z.ltb nb 1) eqn:E1; [apply Z.ltb_lt in E1|apply Z.ltb_ge in E1; destruct (Z.ltb nd 1) eqn:E2; [apply Z.ltb_lt in E2|apply Z.ltb_ge in E2]];
+        destruct v; destruct valid; cbn [app];
         (split; [|split]); split; intros H0; try discriminate; try reflexivity; intuition (try discriminate; try lia).
-    + (split; [|split]); split; intros H0; try discriminate; try reflexivity; intuition (try discriminate; try lia).
+    + destruct v; (split; [|split]); split; intros H0; try discriminate; try reflexivity; intuition (try discriminate; try lia).
   - assert (Hno : ~ ok) by (intros H0; apply HQ in H0; discriminate).
-    (split; [|split]); split; intros H0; try discriminate; try reflexivity; intuition (try discriminate; try lia). Qed.
+    destruct v; (split; [|split]); split; intros H0; try discriminate; try reflexivity; intuition (try discriminate; try lia). Qed.
 
 (* non-vacuity *)
 Lemma example_choice : Forall (fun b => (b < 1)%nat) [0; 0; 0]%nat /\ length [0; 0; 0]%nat = 3%nat /\ (1 <= 3)%nat.
 Proof. repeat split; auto. Qed.
-
-(* the covariance handed to the sampler is NOT the reported covariance: witness cov = [[0]] (any cov: the diagonal moves by 2^-26) *)
-Lemma mvn_cov_is_reported_refuted : exists cov : list (list R), Gen_load_diagonal cov <> cov.
-Proof. exists [[0]]. intros H. assert (E : entry (Gen_load_diagonal [[0]]) 0 0 = entry [[0]] 0 0) by (rewrite H; reflexivity).
-  rewrite load_diagonal_entry in E by (cbn; lia). cbn in E. lra. Qed.
